@@ -59,7 +59,9 @@ Inductive event :=
 | EPart (round prev psig : Z)                    (* ProcessPartialBeacon *)
 | EStop
 | ERestart (sync : option (list beacon))         (* new handler on the same store + Catchup() *)
-| ETransition (target : Z) (g : grp).            (* TransitionNewGroup *)
+| ETransition (target : Z) (g : grp)             (* TransitionNewGroup *)
+| ESynced (upto : Z) (bs : list beacon).         (* the sync manager, asked by the aggregator (OSyncReq: a recovered beacon
+                                                    that is not the head's successor), receives a peer's stream *)
 
 Inductive out :=
 | OReject                                        (* ProcessPartialBeacon returned an error *)
@@ -256,6 +258,10 @@ Section Node.
         do_sync s0 nr sync
     | ETransition target g =>
         (mkS (s_now s) (s_chain s) (s_cache s) (s_cur s) (s_timers s) (s_grp s) (Some (target, g)) (s_running s), [])
+    | ESynced upto bs =>
+        if negb (s_running s) then (s, []) else
+        let from := b_round (head s) + 1 in
+        try_node s upto (filter (fun b => from <=? b_round b) bs)
     end.
 
   Fixpoint run (s : nstate) (es : list event) : nstate * list (list out) :=
